@@ -1,31 +1,238 @@
-"""C15 - Response / Error envelope accepts and preserves every spec-shaped body (engine K-gen, restricted).
+"""C15 - Response / Error envelope accepts and preserves every spec-shaped body; Error's Display.
 
-graphql_client::Response<T> (T = a plain generated ResponseData) is deserialized from a symbolic body:
-`data` absent / null / a payload (conforming or with one symbolic corruption), `errors` absent / null / a list of
-0..2 entries whose `locations` are absent / null / 0..2 entries with symbolic i32 line / column, unknown members at
-every level, `extensions` absent or null.  CBMC decides that every conforming body is accepted and re-serializes to
-the same JSON (up to null / absent).  Error::path entries (untagged enum) and non-null `extensions`
-(HashMap<String, Value>) run through serde Content / hashing and are outside; Display is checked natively only.
+Two parts:
+
+* engine M (solver-decided): `<graphql_client::Error as Display>::fmt` is executed symbolically from the MIR of the
+  working tree's graphql_client crate for every path of 0..N entries (each a Key with an unconstrained string or an
+  Index with an unconstrained i32), path absent, location absent / present (unconstrained i32 line / column) and an
+  unconstrained message; z3 decides that the formatter never panics and that its output equals
+  `join("/", path) | "<query>"` + `:line:column: message`.  The std formatting machinery is summarised (template decoded
+  from the compiled `format_args!` bytes, decimal rendering of an integer = an uninterpreted non-empty string not ending
+  in `/`).
+* native (sampled, NOT solver-decided): bodies enumerated from the response grammar are pushed through
+  `serde_json::from_str::<Response<Value>>`, re-serialized and read back.  The derives on Response / Error run through
+  serde's private Content buffer (untagged PathFragment), HashMap<String, Value> and serde_json's parser; the K-gen
+  harness for the Content-free sub-grammar did not finish within 600 s per harness (measured), so this half is outside
+  the solver's reach here and the evidence says so.
 """
+import itertools
 import json
+import random
+import time
 
 import vp_common as vc
-import krun
+import native
+import mcheck
+import kernels as K
 
 PROP = 'C15'
 
 
-def build(c):
-    c.derive_modules(lambda e: ['base'])
-    c.add_envelope_harnesses(PROP)
+def want_display(err):
+    path = err.get('path')
+    p = '<query>' if path is None else '/'.join(str(x) for x in path)
+    locs = err.get('locations') or []
+    line, col = (locs[0]['line'], locs[0]['column']) if locs else (0, 0)
+    return f'{p}:{line}:{col}: {err["message"]}'
+
+
+def error_json(path, message, location):
+    e = {'message': message}
+    if path is not None:
+        e['path'] = path
+    if location is not None:
+        e['locations'] = [{'line': location[0], 'column': location[1]}]
+    return e
+
+
+def confirm_display(T, errs):
+    """[(error json)] -> [(ok, description)] against the real Display impl"""
+    res = T.batch([('display', e) for e in errs])
+    out = []
+    for e, r in zip(errs, res):
+        if not r['ok']:
+            out.append((False, f'Display / parse of {json.dumps(e)} failed: {r["error"]}'))
+        elif r['display'] != want_display(e):
+            out.append((False, f'Display of {json.dumps(e)} prints {r["display"]!r}, expected {want_display(e)!r}'))
+        else:
+            out.append((True, r['display']))
+    return out
+
+
+# ------------------------------------------------------------------ response grammar (native sampling)
+
+ABSENT = object()
+
+
+def strip_nulls(v, top=True):
+    return v
+
+
+def norm_error(e):
+    """what must be preserved of one error entry: its four known members, null == absent"""
+    out = {'message': e['message']}
+    for k in ('locations', 'path', 'extensions'):
+        if e.get(k) is not None:
+            out[k] = e[k]
+    if 'locations' in out:
+        out['locations'] = [{'line': l['line'], 'column': l['column']} for l in out['locations']]
+    return out
+
+
+def norm_body(b):
+    out = {}
+    if b.get('data') is not None:
+        out['data'] = b['data']
+    if b.get('errors') is not None:
+        out['errors'] = [norm_error(e) for e in b['errors']]
+    if b.get('extensions') is not None:
+        out['extensions'] = b['extensions']
+    return out
+
+
+def grammar_bodies(tier, seed):
+    rnd = random.Random(seed)
+    ext_values = [{}, {'code': 'X'}, {'n': {'a': [1, None, {'b': 2.5}], 'c': True}, 'z': None}]
+    paths = [ABSENT, None, [], ['a'], [0], ['a', 0, 'b'], [3, 'x', 4], ['', ''], ['a/'], ['/'], ['ünï', 2147483647], [-1]]
+    locs = [ABSENT, None, [], [{'line': 1, 'column': 2}], [{'line': 3, 'column': 4}, {'line': 0, 'column': 0}], [{'line': 2147483647, 'column': -5, 'extra': 'x'}]]
+    exts = [ABSENT, None] + ext_values
+    errors = []
+    for p, l, x in itertools.product(paths, locs, exts):
+        e = {'message': rnd.choice(['', 'boom', 'a: b/c', 'ü'])}
+        for k, v in (('path', p), ('locations', l), ('extensions', x)):
+            if v is not ABSENT:
+                e[k] = v
+        if rnd.random() < 0.3:
+            e['unknown'] = rnd.choice([1, 'x', None, {'deep': [1, 2]}])
+        errors.append(e)
+    rnd.shuffle(errors)
+    if tier == 'quick':
+        errors = errors[:120]
+    datas = [ABSENT, None, {}, {'a': 1, 'b': [None, {'c': 'x'}]}]
+    bodies = []
+    err_lists = [ABSENT, None, []] + [[e] for e in errors] + [errors[i:i + 3] for i in range(0, min(len(errors), 60), 3)]
+    for i, el in enumerate(err_lists):
+        for d in (datas if i < 3 else [rnd.choice(datas)]):
+            for x in (exts if i < 3 else [rnd.choice(exts)]):
+                b = {}
+                if d is not ABSENT:
+                    b['data'] = d
+                if el is not ABSENT:
+                    b['errors'] = el
+                if x is not ABSENT:
+                    b['extensions'] = x
+                if rnd.random() < 0.25:
+                    b['unknown_member'] = rnd.choice([1, None, {'k': []}])
+                bodies.append(b)
+    return bodies
+
+
+def check_bodies(T, bodies):
+    """-> list of (role, description, payload) for bodies that are rejected / not preserved"""
+    res = T.batch([('response', b) for b in bodies], timeout=300)
+    bad = []
+    for b, r in zip(bodies, res):
+        if not r['ok']:
+            bad.append(('native:spec-body-rejected', f'conforming body {json.dumps(b)} is rejected: {r["error"]}', b))
+            continue
+        if not r['roundtrip']:
+            bad.append(('native:roundtrip-not-identity', f'deserialize(serialize(r)) != r for r = parse({json.dumps(b)}); serialized as {json.dumps(r["json"])}', b))
+            continue
+        for k in ('data', 'errors', 'extensions'):
+            if r[f'{k}_is_some'] != (b.get(k) is not None):
+                bad.append(('native:member-lost', f'body {json.dumps(b)}: `{k}` parsed to {"Some" if r[f"{k}_is_some"] else "None"}', b))
+                break
+        else:
+            if norm_body(r['json']) != norm_body(b):
+                bad.append(('native:content-not-preserved', f'body {json.dumps(b)} re-serializes to {json.dumps(r["json"])}', b))
+    return bad
 
 
 def main():
-    return krun.standard_check(
-        PROP, build, ok_real=lambda v: v == 'Ok',
-        describe='a spec-shaped response body is rejected or not preserved',
-        level_text='bounded model checking of the serde derives on Response / Error / Location',
-        assumptions=['SV / CheckSer harness models mirror serde_json::Value (validated natively on every run)',
-                     'path entries and non-null extensions are excluded (serde Content / HashMap)',
-                     'Display of Error is not solver-decided'],
-        jobs=4, only=['plain1'])
+    t0 = time.time()
+    tier = vc.tier()
+    out = vc.Outcome(PROP)
+    sc = vc.scratch(PROP)
+    T = native.ReplayTool(sc)
+    T.start_build()
+    R = mcheck.MRun(vc.REPO, sc, 'client', max_depth=60)
+    maxpath = 2 if tier == 'quick' else 4
+    try:
+        cands = K.k_error_display(R, maxpath)
+    except Exception as e:  # noqa
+        cands = []
+        out.inconc(f'error_display kernel: {type(e).__name__}: {e}')
+    replayed = 0
+    seen = set()
+    for c in cands:
+        if 'path' not in c:
+            out.inconc('error_display: ' + c['what'])
+            continue
+        e = error_json(c['path'], c['message'], c['location'])
+        role = 'display:' + ('path-not-slash-joined' if c['path'] is not None else 'no-path')
+        if role in seen:
+            continue
+        (ok, desc), = confirm_display(T, [e])
+        replayed += 1
+        if ok:
+            out.inconc(f'solver counterexample {json.dumps(e)} did not reproduce natively ({desc})')
+        else:
+            seen.add(role)
+            out.violation(role, desc, dict(kind='display', error=e, solver_got=c['got'], solver_want=c['want']))
+    # native sampling of the serde half (not solver-decided)
+    native_n = 0
+    native_bad = []
+    for seed in vc.seeds():
+        bodies = grammar_bodies(tier, seed)
+        native_n += len(bodies)
+        native_bad += check_bodies(T, bodies)
+        # Display on sampled errors as well (replays the M claim on concrete inputs)
+        errs = [e for b in bodies for e in (b.get('errors') or [])][:400]
+        for e, (ok, desc) in zip(errs, confirm_display(T, errs)):
+            if not ok and not seen:
+                native_bad.append(('display:native-sample', desc, {'errors': [e]}))
+        native_n += len(errs)
+    seen_roles = set()
+    for role, desc, b in native_bad:
+        if role in seen_roles:
+            continue
+        seen_roles.add(role)
+        out.violation(role, desc, dict(kind='response' if role.startswith('native') else 'display-sample', body=b))
+    for w in R.inconclusive:
+        out.inconc(w)
+    cross = R.cross_check(limit=6 if tier == 'quick' else 30)
+    ev = R.evidence()
+    coverage = dict(
+        states=R.paths, transitions=R.vm.queries, traces_validated_against_impl=replayed + native_n,
+        samples=R.samples[:6],
+        obligations=R.obligations, discharged=R.discharged,
+        bounds=dict(max_path_entries=maxpath, path_entries='Key(unconstrained string) | Index(unconstrained i32)', message='unconstrained string',
+                    location='absent | first location with unconstrained i32 line / column (further locations are never read by the code)'),
+        outside_bounds='longer paths; the serde derives on Response / Error / Location / PathFragment (Content, HashMap, serde_json) are sampled natively only '
+                       f'({native_n} bodies / errors from the response grammar): accept + round trip + Some/None per member + content preserved',
+        engine=ev, cross_check=cross, exhaustive=False,
+        solver_decided='Display of Error (total; `path:line:column: message`)', sampled_only='deserialize / serialize round trip of Response<Value>')
+    vc.write_evidence(PROP, 'model_checking', coverage,
+                      ['core::fmt machinery summarised: template decoded from the compiled format_args! bytes; Display of str / String is the identity',
+                       'decimal rendering of an i32 is an uninterpreted string that is non-empty and does not end in `/`',
+                       'str::trim_end_matches(char) summarised structurally',
+                       'library summaries listed under engine.summaries_used'],
+                      time.time() - t0, violations=len(out.violations))
+    return out.finish()
+
+
+def replay(path):
+    p = json.load(open(path))
+    sc = vc.scratch(PROP + 'r')
+    T = native.ReplayTool(sc)
+    if p.get('kind') == 'display':
+        (ok, desc), = confirm_display(T, [p['error']])
+        print(desc)
+        return 0 if ok else 1
+    body = p['body']
+    bad = check_bodies(T, [body])
+    errs = body.get('errors') or []
+    bad += [('display', d, None) for ok, d in confirm_display(T, errs) if not ok]
+    for b in bad:
+        print(b[1])
+    return 1 if bad else 0
